@@ -100,6 +100,34 @@ def run(tier="quick", seed=0, arg=None):
                 if got != exp:
                     fails.append({"check": "C03.evaluate", "input": {"text": t, "env": {k: (sorted(v) if isinstance(v, set) else v) for k, v in e.items()}, "context": "lock_file"}, "observed": got, "expected": exp})
                     break
+    # same-variable pairs of string atoms whose literals contain one another (==/!=/in/not in, both operand orders, and / or): the parse-time merge
+    # rules are keyed on exactly these coincidences (substring vs whole word vs equal); always in full, on environments that vary that variable
+    from ..mpools import ENV_STRINGS, STRING_VARS
+    for var, lits in STRING_VARS.items():
+        lits = list(lits) + {"sys_platform": ["linux2 darwin"], "platform_machine": ["x86_64,arm64"], "os_name": ["nt posix"], "implementation_name": ["cpython pypy"]}[var]
+        ats = [(f'{var} {op} "{l}"', l) for op in ("==", "!=", "in", "not in") for l in lits] + [(f'"{l}" {op} {var}', l) for op in ("in", "not in") for l in lits]
+        venvs = [dict(envs[0], **{var: v}) for v in ENV_STRINGS[var]]
+        for ta, la in ats:
+            for tb, lb in ats:
+                if not (la in lb or lb in la):
+                    continue
+                for glue in (" and ", " or "):
+                    t = ta + glue + tb
+                    try:
+                        m, ref = parse_marker(t), PkgMarker(t)
+                    except Exception as e:  # noqa: BLE001
+                        fails.append({"check": "C03.parse-raises", "input": {"text": t}, "observed": repr(e), "expected": "parses"})
+                        continue
+                    for e in venvs:
+                        evals += 1
+                        try:
+                            exp = ref.evaluate(e)
+                        except Exception:  # noqa: BLE001
+                            continue
+                        got = m.evaluate(e)
+                        if got != exp:
+                            fails.append({"check": "C03.evaluate", "input": {"text": t, "env": e}, "observed": got, "expected": exp})
+                            break
     # name normalisation (PEP 685 / PEP 503): every spelling of the environment's extra / group names, incl. separator runs that mix - _ .
     spellings = ["a-b", "A_b", "a.b", "a--b", "a-_b", "A.-B", "a__b", "a..b", "a-.-b", "a_.-_b", "ab", "a", "a-b-c", "a--b__c"]
     base = {k: v for k, v in envs[0].items() if k != "extra"}
